@@ -1,0 +1,136 @@
+//go:build verif
+
+/*
+ * Licensed to the Apache Software Foundation (ASF) under one or more
+ * contributor license agreements.  See the NOTICE file distributed with
+ * this work for additional information regarding copyright ownership.
+ * The ASF licenses this file to You under the Apache License, Version 2.0
+ * (the "License"); you may not use this file except in compliance with
+ * the License.  You may obtain a copy of the License at
+ *
+ *     http://www.apache.org/licenses/LICENSE-2.0
+ *
+ * Unless required by applicable law or agreed to in writing, software
+ * distributed under the License is distributed on an "AS IS" BASIS,
+ * WITHOUT WARRANTIES OR CONDITIONS OF ANY KIND, either express or implied.
+ * See the License for the specific language governing permissions and
+ * limitations under the License.
+ */
+
+package at
+
+// Verification contracts (comment-only, tag verif) for property C05: a TCC prepare registers its
+// Verification contracts (comment-only, tag verif) for property C03, second sentence: a locking
+// read inside a global transaction hands rows to the caller only after the coordinator has said they
+// are lockable; on a conflict it fails and releases the local row locks it took.
+// Environment: the business SELECT (callback f), the driver's query / begin / rollback / commit, the
+// coordinator's LockQuery (any answer, calls counted), hooks. Abstract: SQL text building and
+// primary-key string building (buildSelectPKSQL, buildLockKey: parser AST, reflection).
+//@ pkginit conflict-sentinel: lockConflictError != nil
+//@ ghost var lock_queries int
+//@ ghost var lock_granted bool
+//@ ghost var sel_runs int
+//@ ghost var released int
+//@ iface (datasource.DataSourceManager).LockQuery
+//@   modifies ghost.lock_queries, ghost.lock_granted
+//@   ensures ghost.lock_queries == old(ghost.lock_queries) + 1 && ghost.lock_granted == (result0 && result1 == nil)
+//@ ext callback:f
+//@   modifies ghost.sel_runs
+//@   ensures ghost.sel_runs == old(ghost.sel_runs) + 1 && (result1 == nil ==> result0 != nil)
+//@ func (*baseExecutor).beforeHooks
+//@   trusted
+//@   ensures true
+//@ func (*baseExecutor).afterHooks
+//@   trusted
+//@   ensures true
+//@ func (*selectForUpdateExecutor).buildSelectPKSQL
+//@   trusted
+//@   ensures true
+//@ func (*selectForUpdateExecutor).buildLockKey
+//@   trusted
+//@   ensures true
+// exec runs one statement on the target connection and hands the rows to the given function
+// (type switches over the driver's query interfaces: trusted; it calls f only on success)
+//@ ghost var stmts_run int
+//@ func (*selectForUpdateExecutor).exec
+//@   trusted
+//@   modifies ghost.stmts_run
+//@   ensures ghost.stmts_run == old(ghost.stmts_run) + 1
+//@   invokes f when result1 == nil
+//@ iface (driver.Rows).Close
+//@   ensures true
+//@ ext seata.apache.org/seata-go/pkg/datasource/sql/datasource.GetTableCache
+//@   ensures result != nil
+//@ iface (datasource.TableMetaCache).GetTableMeta
+//@   ensures result1 == nil ==> result0 != nil
+//@ ext (*seata.apache.org/seata-go/pkg/datasource/sql/types.ParseContext).GetTableName
+//@   ensures true
+
+//@ func (*selectForUpdateExecutor).doExecContext
+//@   prop C03 C16
+//@   requires s != nil && s.execContext != nil && s.execContext.TxCtx != nil && s.execContext.Conn != nil && s.metaData != nil
+//@   modifies s.tx, s.savepointName, s.execContext.IsAutoCommit, ghost.sel_runs, ghost.lock_queries, ghost.lock_granted, ghost.dtx, ghost.stmts_run
+//@   ensures rows-only-after-the-coordinator-agreed: result1 == nil && result0 != nil ==> ghost.lock_queries == old(ghost.lock_queries) + 1 && ghost.lock_granted && ghost.sel_runs == old(ghost.sel_runs) + 1
+//@   ensures conflict-is-an-error: ghost.lock_queries == old(ghost.lock_queries) + 1 && !ghost.lock_granted ==> result1 != nil && result0 == nil
+//@   ensures conflict-is-recognisable: called("LockQuery#1") && callres("LockQuery#1", 1) == nil && !callres("LockQuery#1", 0) ==> result1 == lockConflictError
+//@   ensures C16/success-carries-the-statement-result: result1 == nil ==> result0 != nil && called("callback:f#1") && result0 == callres("callback:f#1", 0)
+//@   ensures one-question-per-attempt: ghost.lock_queries <= old(ghost.lock_queries) + 1 && ghost.lock_queries >= old(ghost.lock_queries) && ghost.sel_runs <= old(ghost.sel_runs) + 1 && ghost.sel_runs >= old(ghost.sel_runs)
+//@   ensures no-question-keeps-the-answer: ghost.lock_queries == old(ghost.lock_queries) ==> ghost.lock_granted == old(ghost.lock_granted)
+//@   ensures holds-a-way-back: result1 == nil || ghost.lock_queries > old(ghost.lock_queries) ==> s.tx != nil || s.savepointName != ""
+//@   let auto0 := s.execContext.IsAutoCommit
+//@   ensures tx-begun-in-autocommit: auto0 && result1 == nil ==> s.tx != nil && !s.execContext.IsAutoCommit
+//@   ensures flag-tracks-tx: auto0 ==> (s.execContext.IsAutoCommit ==> result1 != nil && s.tx == nil) && (!s.execContext.IsAutoCommit ==> s.tx != nil)
+//@   ensures explicit-mode-untouched: !auto0 ==> !s.execContext.IsAutoCommit && s.tx == old(s.tx)
+//@   ensures savepoint-only-in-explicit-mode: auto0 ==> s.savepointName == old(s.savepointName)
+//@   at call LockQuery#1: assert asks-about-the-selected-keys: ghost.sel_runs == old(ghost.sel_runs) + 1 && arg_param.Xid == s.execContext.TxCtx.XID && arg_param.ResourceId == s.execContext.TxCtx.ResourceID && arg_param.BranchType == branch.BranchTypeAT && arg_param.LockKeys == lockKey && lockKey != ""
+
+//@ func (*selectForUpdateExecutor).ExecContext
+//@   prop C03
+//@   requires s != nil && s.execContext != nil && s.execContext.TxCtx != nil && s.execContext.Conn != nil && s.parserCtx != nil && s.cfg != nil && ctx != nil && f != nil
+//@   let cv := ctxvalue(ctx, tm.seataContextVariable)
+//@   requires cv != nil ==> isT(cv, *tm.ContextVariable) && cv.(*tm.ContextVariable) != nil
+//@   let global := (cv != nil && cv.(*tm.ContextVariable).Xid != "") || s.execContext.IsRequireGlobalLock
+//@   requires ghost.sel_runs == 0 && ghost.lock_queries == 0 && !ghost.lock_granted && s.savepointName == "" && s.tx == nil
+//@   modifies heap.all, ghost.all
+//@   ensures plain-read-outside-a-global-tx: !global ==> ghost.lock_queries == 0 && ghost.sel_runs == 1 && called("callback:f#1") && result0 == callres("callback:f#1", 0) && result1 == callres("callback:f#1", 1)
+//@   ensures rows-only-after-the-coordinator-agreed: global && result1 == nil && result0 != nil ==> ghost.lock_queries >= 1 && ghost.lock_granted
+//@   ensures no-rows-without-agreement: global && ghost.lock_queries >= 1 && !ghost.lock_granted ==> result0 == nil
+//@   ensures failure-releases-local-locks: global && result1 != nil && !called("(driver.Tx).Commit#1") && (s.tx != nil || s.savepointName != "") ==> called("(driver.Tx).Rollback#1") || called("exec#1")
+//@   let auto0 := s.execContext.IsAutoCommit
+//@   loop 1 invariant attempts: bf != nil && bf.ctx != nil && (err == nil ==> result == nil)
+//@   loop 1 invariant mode: ghost.lock_queries >= 0 && (auto0 ==> (s.execContext.IsAutoCommit ==> s.tx == nil && s.savepointName == "") && (!s.execContext.IsAutoCommit ==> s.tx != nil)) && (!auto0 ==> !s.execContext.IsAutoCommit && s.tx == nil)
+//@   ensures own-transaction-is-ended: global && auto0 && result1 != nil && s.tx != nil ==> called("(driver.Tx).Rollback#1") || called("(driver.Tx).Commit#1")
+//@   nopanic
+
+// C16: outside a global transaction the AT executor is a plain pass-through.
+//@ func (*ATExecutor).ExecWithNamedValue
+//@   prop C16
+//@   requires e != nil && execCtx != nil && ctx != nil && f != nil && ghost.sel_runs == 0
+//@   let cv := ctxvalue(ctx, tm.seataContextVariable)
+//@   requires cv != nil ==> isT(cv, *tm.ContextVariable) && cv.(*tm.ContextVariable) != nil
+//@   let global := cv != nil && cv.(*tm.ContextVariable).Xid != ""
+//@   modifies heap.all, ghost.all
+//@   ensures plain-outside-a-global-tx: !global ==> ghost.sel_runs == 1 && called("callback:f#1") && result0 == callres("callback:f#1", 0) && result1 == callres("callback:f#1", 1)
+//@   at call callback:f#1: assert same-statement: !global ==> arg_ctx == ctx && arg_query == execCtx.Query && arg_args == execCtx.NamedValues
+//@   may_panic
+// the per-statement executors used inside a global transaction are not part of the pass-through claim
+//@ func NewInsertExecutor
+//@   trusted
+//@   ensures result != nil
+//@ func NewUpdateExecutor
+//@   trusted
+//@   ensures result != nil
+//@ func NewDeleteExecutor
+//@   trusted
+//@   ensures result != nil
+//@ func NewSelectForUpdateExecutor
+//@   trusted
+//@   ensures result != nil
+//@ func NewInsertOnUpdateExecutor
+//@   trusted
+//@   ensures result != nil
+//@ func NewMultiExecutor
+//@   trusted
+//@   ensures result != nil
+//@ iface (at.executor).ExecContext
+//@   ensures true
